@@ -1,369 +1,111 @@
-import Gp.Go.Basic
-import Gp.Gen.PcapNg
+import Gp.Model.PcapNgProg
 /-
   Executable model of the pcapng READER of /repo/pcapgo (ngread.go, ngread_nrb.go,
   ngread_dsb.go, pcapng.go) — with the proposed fixes pcapng-1 … pcapng-6 applied
-  (see /verif/proposed_fixes and notes/pcapng.md).
-
-  * input: the remaining bytes of the stream (`St.inp`); bufio/io chunking is not modelled
-    (the reader only uses readBytes = "read exactly n or fail", Discard, ReadBytes(0), Peek(2));
-  * outcomes: `Out.ok a s` / `Out.fail e s` — the state after a failure is kept, because
-    a caller may keep calling a reader after an error;
-  * unsigned 32 bit wrap of `currentBlock.length` is modelled (`sub32`);
-  * every loop of the Go code is an instance of `iter` (fuel-bounded; running out of fuel
-    is the distinguished failure `Err.hang`, proved unreachable in Gp/Lemmas/PcapNg*.lean);
-  * memory behaviour (allocation requests, the reused zero-copy buffer) is a function of the
-    `MemEv` events the reader emits; it is modelled in Gp/Model/PcapNgMem.lean.
-
-  Block type codes, option codes, magic numbers come from Gp/Gen/PcapNg.lean, which is
-  regenerated from the source on every run.
+  (see /verif/proposed_fixes and notes/pcapng.md) — written in the `Prog` language of
+  Gp/Model/PcapNgProg.lean.  Each definition names the Go function (or the stretch of a Go function
+  between two reads of the stream) it models: the reader alternates between stream primitives and
+  pure steps on its state, `Act α = S → Except Err α × S`.
 -/
 namespace Gp.PcapNg
 open Gp.Gen.PcapNg
 
-/-! ## Values -/
-
-inductive Err where
-  | eof    -- io.EOF
-  | ueof   -- io.ErrUnexpectedEOF (identical error value)
-  | err    -- any other error
-  | werr   -- an error created with fmt.Errorf("…%v", io.ErrUnexpectedEOF / io.EOF): *not* an EOF value
-  | gzip   -- the stream starts with the gzip magic: handed to compress/gzip (outside the model)
-  | hang   -- model artefact: loop fuel exhausted (proved unreachable)
-  | panic (k : PanicKind)
-  deriving DecidableEq, Repr, Inhabited
-
-/-- Observable part of a time.Time: (t.Unix(), t.Nanosecond()). -/
-structure Time where
-  sec  : Int
-  nsec : Int
-  deriving DecidableEq, Repr, Inhabited
-
-/-- time.Time{} -/
-def Time.zero : Time := ⟨-62135596800, 0⟩
-
-def wrapI64 (x : Int) : Int := (x + 9223372036854775808) % 18446744073709551616 - 9223372036854775808
-
-/-- time.Unix(sec, nsec) followed by .Unix()/.Nanosecond() (int64 arithmetic wraps). -/
-def timeUnix (sec nsec : Int) : Time :=
-  if nsec < 0 ∨ nsec ≥ 1000000000 then
-    let n := Int.tdiv nsec 1000000000
-    let sec := wrapI64 (sec + n)
-    let nsec := nsec - n * 1000000000
-    if nsec < 0 then ⟨wrapI64 (sec - 1), nsec + 1000000000⟩ else ⟨sec, nsec⟩
-  else ⟨sec, nsec⟩
-
-structure Stats where
-  lastUpdate : Time := Time.zero
-  startTime  : Time := Time.zero
-  endTime    : Time := Time.zero
-  comment    : Bytes := []
-  received   : Nat := NgNoValue64
-  dropped    : Nat := NgNoValue64
-  deriving DecidableEq, Repr, Inhabited
-
-structure Iface where
-  name    : Bytes := []
-  comment : Bytes := []
-  descr   : Bytes := []
-  filter  : Bytes := []
-  os      : Bytes := []
-  linkType : Nat := 0
-  tsres   : Nat := 0
-  tsoff   : Nat := 0
-  snaplen : Nat := 0
-  stats   : Stats := {}
-  secondMask : Nat := 0
-  scaleUp    : Nat := 0
-  scaleDown  : Nat := 0
-  deriving DecidableEq, Repr, Inhabited
-
-structure Section where
-  hardware : Bytes := []
-  os       : Bytes := []
-  app      : Bytes := []
-  comment  : Bytes := []
-  deriving DecidableEq, Repr, Inhabited
-
-structure Flags where
-  dir : Nat
-  rcv : Nat
-  fcs : Nat
-  lle : Nat
-  deriving DecidableEq, Repr, Inhabited
-
-structure PktOpts where
-  comments  : List Bytes := []
-  flags     : Option Flags := none
-  hashes    : List (Nat × Bytes) := []
-  dropCount : Option Nat := none
-  packetId  : Option Nat := none
-  queue     : Option Nat := none
-  verdicts  : List (Nat × Bytes) := []
-  deriving DecidableEq, Repr, Inhabited
-
-/-- gopacket.CaptureInfo as filled by readPacketHeader (+ ancillary link type, + the snap length of the interface). -/
-structure CapInfo where
-  iface  : Nat := 0
-  ts     : Time := Time.zero
-  caplen : Nat := 0
-  len    : Nat := 0
-  deriving DecidableEq, Repr, Inhabited
-
-structure Pkt where
-  ci    : CapInfo
-  ancil : Option Nat     -- ci.AncillaryData[0] (link type) iff WantMixedLinkType
-  data  : Bytes
-  opts  : PktOpts
-  deriving DecidableEq, Repr, Inhabited
-
-/-- NgReaderOptions (callbacks are not modelled: nil). -/
-structure Cfg where
-  mixed       : Bool := false   -- WantMixedLinkType
-  errMismatch : Bool := false   -- ErrorOnMismatchingLinkType
-  skipUnknown : Bool := false   -- SkipUnknownVersion
-  deriving DecidableEq, Repr, Inhabited
-
-structure NameRec where
-  addrLen : Nat
-  names   : List Bytes
-  deriving DecidableEq, Repr, Inhabited
-
-/-- Memory-relevant events (interpreted by Gp/Model/PcapNgMem.lean). -/
-inductive MemEv where
-  | opt  (len : Nat)                          -- a non-empty option value of `len` bytes was requested
-  | data (n : Nat) (got : Bytes) (snaplen : Nat)   -- packet data: n bytes requested, `got` delivered by the stream
-  | dsb  (n : Nat) (got : Bytes)              -- decryption secrets payload
-  | name (len : Nat)                          -- bufio ReadBytes(0) returned / accumulated `len` bytes
-  deriving DecidableEq, Repr, Inhabited
-
-def MemEv.present : MemEv → Nat
-  | .opt l => l
-  | .data _ g _ => g.length
-  | .dsb _ g => g.length
-  | .name l => l
-
-structure St where
-  inp  : Bytes
-  cfg  : Cfg := {}
-  be   : Bool := false
-  sect : Section := {}
-  linkType   : Nat := 0
-  firstFound : Bool := false
-  ifaces : List Iface := []
-  blkTyp : Nat := 0
-  blkLen : Nat := 0             -- currentBlock.length (uint32)
-  optCode : Nat := 0
-  optVal  : Bytes := []
-  ci      : CapInfo := {}
-  names   : List NameRec := []
-  nSecrets : Nat := 0
-  ev     : List MemEv := []
-  nWrap  : Nat := 0             -- ghost: number of reads whose EOF error is wrapped with %v
-  -- locals of the Go functions that live across loop iterations
-  curSec  : Section := {}
-  curIf   : Iface := {}
-  curOpts : PktOpts := {}
-  isbId   : Nat := 0
-  nrLen   : Int := 0
-  nrPad   : Nat := 0
-  nrAddr  : Nat := 0
-  nrNames : List Bytes := []
-  deriving Repr, Inhabited
-
-/-! ## Monad -/
-
-inductive Out (α : Type) where
-  | ok   (a : α) (s : St)
-  | fail (e : Err) (s : St)
-  deriving Inhabited
-
-def Out.st {α} : Out α → St
-  | .ok _ s => s
-  | .fail _ s => s
-
-def M (α : Type) := St → Out α
-
-@[inline] def M.pure {α} (a : α) : M α := fun s => .ok a s
-@[inline] def M.bind {α β} (m : M α) (f : α → M β) : M β := fun s =>
-  match m s with
-  | .ok a s' => f a s'
-  | .fail e s' => .fail e s'
-
-instance : Monad M where
-  pure := M.pure
-  bind := M.bind
-
-def failM {α} (e : Err) : M α := fun s => .fail e s
-def getS : M St := fun s => .ok s s
-def modS (f : St → St) : M Unit := fun s => .ok () (f s)
-
-/-- replace the error of a failing computation (fmt.Errorf("…: %v", err)). -/
-def mapErr {α} (m : M α) (f : Err → Err) : M α := fun s =>
-  match m s with
-  | .ok a s' => .ok a s'
-  | .fail e s' => .fail (f e) s'
-
-/-- all errors become a fresh (non-EOF) error; panics/hang stay -/
-def wrapE : Err → Err
-  | .panic k => .panic k
-  | .hang => .hang
-  | .gzip => .gzip
-  | .err => .err
-  | _ => .werr
-
-inductive Step (α : Type) where
-  | again
-  | done (a : α)
-
-/-- Every Go loop: run `body` until it says `done`; `fuel` bounds the number of iterations. -/
-def iter {α} (body : M (Step α)) : Nat → M α
-  | 0 => failM .hang
-  | f + 1 => fun s =>
-    match body s with
-    | .ok .again s' => iter body f s'
-    | .ok (.done a) s' => .ok a s'
-    | .fail e s' => .fail e s'
-
-/-! ## Integers -/
-
-def leNat : Bytes → Nat
-  | [] => 0
-  | b :: r => b.toNat + 256 * leNat r
-
-def beNat (b : Bytes) : Nat := leNat b.reverse
-
-/-- r.getUint16/32/64 on a slice of exactly 2/4/8 bytes -/
-def getU (be : Bool) (b : Bytes) : Nat := if be then beNat b else leNat b
-
-def two32 : Nat := 4294967296
-def two64 : Nat := 18446744073709551616
-
-/-- uint32 subtraction `a -= uint32(b)` -/
-def sub32 (a b : Nat) : Nat := (a + two32 - b % two32) % two32
-
-def toI64 (n : Nat) : Int := wrapI64 (Int.ofNat n)
-
-/-! ## Stream primitives -/
-
-/-- r.readBytes(buf[:n]): n bytes or io.ErrUnexpectedEOF (everything left is consumed). -/
-def rd (n : Nat) : M Bytes := fun s =>
-  if n ≤ s.inp.length then .ok (s.inp.take n) { s with inp := s.inp.drop n }
-  else .fail .ueof { s with inp := [] }
-
-/-- readBytes at the start of a block: io.EOF if nothing at all is left. -/
-def rd0 (n : Nat) : M Bytes := fun s =>
-  if n ≤ s.inp.length then .ok (s.inp.take n) { s with inp := s.inp.drop n }
-  else if s.inp.isEmpty then .fail .eof s
-  else .fail .ueof { s with inp := [] }
-
-/-- a read whose error is wrapped by the caller with %v (counts in the ghost `nWrap`) -/
-def rdW (n : Nat) : M Bytes := fun s =>
-  mapErr (rd n) wrapE { s with nWrap := s.nWrap + 1 }
-
-/-- r.discard(length): skip and decrement currentBlock.length -/
-def discard (n : Nat) : M Unit := fun s =>
-  if n ≤ s.inp.length then .ok () { s with inp := s.inp.drop n, blkLen := sub32 s.blkLen n }
-  else .fail .ueof { s with inp := [] }
-
-def discardW (n : Nat) : M Unit := fun s =>
-  mapErr (discard n) wrapE { s with nWrap := s.nWrap + 1 }
-
-def discardBlock : M Unit := fun s => discard s.blkLen s
-
-def decBlk (n : Nat) : M Unit := modS fun s => { s with blkLen := sub32 s.blkLen n }
-
-def emit (e : MemEv) : M Unit := modS fun s => { s with ev := s.ev ++ [e] }
-
-/-- position of the first 0 byte -/
-def findZero : Bytes → Option Nat
-  | [] => none
-  | b :: r => if b = 0 then some 0 else (findZero r).map (· + 1)
-
-/-- bufio.Reader.ReadBytes(0); its error is wrapped by the caller -/
-def readBytes0 : M Bytes := fun s =>
-  match findZero s.inp with
-  | some p => .ok (s.inp.take (p + 1))
-      { s with inp := s.inp.drop (p + 1), nWrap := s.nWrap + 1, ev := s.ev ++ [.name (p + 1)] }
-  | none => .fail .werr { s with inp := [], nWrap := s.nWrap + 1, ev := s.ev ++ [.name s.inp.length] }
+abbrev Act (α : Type) := S → Except Err α × S
 
 /-! ## Blocks and options -/
 
-/-- readBlock -/
-def readBlock : M Unit := do
-  let h ← rd0 8
-  let s ← getS
+/-- readBlock, after the first 8 bytes: block type (in the current byte order) -/
+def blockTypeStep (h : Bytes) : Act Bool := fun s =>
   let typ := getU s.be (h.take 4)
-  modS fun s => { s with blkTyp := typ }
-  if typ = ngBlockTypeSectionHeader then
+  (.ok (typ = ngBlockTypeSectionHeader), { s with blkTyp := typ })
+
+/-- readBlock, section header: byte order magic `m`, then the remaining length -/
+def blockMagicStep (h m : Bytes) : Act Unit := fun s =>
+  if beNat m = ngByteOrderMagic then
+    (.ok (), { s with be := true, blkLen := sub32 (sub32 (getU true (h.drop 4)) 8) 4 })
+  else if leNat m = ngByteOrderMagic then
+    (.ok (), { s with be := false, blkLen := sub32 (sub32 (getU false (h.drop 4)) 8) 4 })
+  else (.error .err, s)
+
+/-- readBlock -/
+def readBlock : Prog Unit := do
+  let h ← Prog.io (.rd0 8)
+  let isSHB ← Prog.act (blockTypeStep h)
+  if isSHB then
     let m ← rd 4
-    if beNat m = ngByteOrderMagic then
-      modS fun s => { s with be := true }
-    else if leNat m = ngByteOrderMagic then
-      modS fun s => { s with be := false }
-    else failM .err
-    modS fun s => { s with blkLen := sub32 (sub32 (getU s.be (h.drop 4)) 8) 4 }
+    Prog.act (blockMagicStep h m)
   else
     modS fun s => { s with blkLen := sub32 (getU s.be (h.drop 4)) 8 }
 
-/-- readOption (with fix pcapng-2: a zero-length option has an empty value) -/
-def readOption : M Unit := do
-  let s ← getS
-  if s.blkLen = 4 then
-    modS fun s => { s with optCode := ngOptionCodeEndOfOptions }
-  else
+/-- readOption before reading: no space left for options ⇒ fake an end-of-options -/
+def optStartStep : Act Bool := fun s =>
+  if s.blkLen = 4 then (.ok false, { s with optCode := ngOptionCodeEndOfOptions }) else (.ok true, s)
+
+/-- readOption after the 4 byte option header: `some length` = a value of that length follows -/
+def optHeadStep (h : Bytes) : Act (Option Nat) := fun s =>
+  let s := { s with blkLen := sub32 s.blkLen 4 }
+  let code := getU s.be (h.take 2)
+  let length := getU s.be (h.drop 2)
+  let s := { s with optCode := code }
+  if code = ngOptionCodeEndOfOptions then
+    if length ≠ 0 then (.error .err, s) else (.ok none, s)
+  else if length ≠ 0 then (.ok (some length), s)
+  else (.ok none, { s with optVal := [] })      -- fix pcapng-2: a zero-length option has an empty value
+
+/-- readOption -/
+def readOption : Prog Unit := do
+  let more ← Prog.act optStartStep
+  if more then
     let h ← rd 4
-    decBlk 4
-    let s ← getS
-    let code := getU s.be (h.take 2)
-    let length := getU s.be (h.drop 2)
-    modS fun s => { s with optCode := code }
-    if code = ngOptionCodeEndOfOptions then
-      if length ≠ 0 then failM .err else pure ()
-    else if length ≠ 0 then
-      emit (.opt length)
-      let v ← rd length
+    let r ← Prog.act (optHeadStep h)
+    match r with
+    | some length =>
+      let v ← Prog.io (.rdOpt length)
       modS fun s => { s with optVal := v }
       let padding := length % 4
       if padding > 0 then discard (4 - padding) else pure ()
       decBlk length
-    else
-      modS fun s => { s with optVal := [] }
+    | none => pure ()
+  else pure ()
+
+/-- the `switch r.currentOption.code` of an option loop: end-of-options ends the loop -/
+def optSwitch (handle : Nat → Bytes → Act Unit) : Act (Step Unit) := fun s =>
+  if s.optCode = ngOptionCodeEndOfOptions then (.ok (.done ()), s)
+  else
+    match handle s.optCode s.optVal s with
+    | (.ok _, s') => (.ok .again, s')
+    | (.error e, s') => (.error e, s')
 
 /-- `for { readOption(); switch code { case EndOfOptions: break; … } }` -/
-def optLoop (handle : Nat → Bytes → M Unit) (fuel : Nat) : M Unit :=
-  iter (do
+def optLoop (handle : Nat → Bytes → Act Unit) : Prog Unit :=
+  Prog.iter (do
     readOption
-    let s ← getS
-    if s.optCode = ngOptionCodeEndOfOptions then pure (.done ())
-    else
-      handle s.optCode s.optVal
-      pure .again) fuel
+    Prog.act (optSwitch handle))
 
 /-- section header options -/
-def shbHandle (code : Nat) (v : Bytes) : M Unit :=
-  if code = ngOptionCodeComment then modS fun s => { s with curSec := { s.curSec with comment := v } }
-  else if code = ngOptionCodeHardware then modS fun s => { s with curSec := { s.curSec with hardware := v } }
-  else if code = ngOptionCodeOS then modS fun s => { s with curSec := { s.curSec with os := v } }
-  else if code = ngOptionCodeUserApplication then modS fun s => { s with curSec := { s.curSec with app := v } }
-  else pure ()
+def shbHandle (code : Nat) (v : Bytes) : Act Unit := fun s =>
+  if code = ngOptionCodeComment then (.ok (), { s with curSec := { s.curSec with comment := v } })
+  else if code = ngOptionCodeHardware then (.ok (), { s with curSec := { s.curSec with hardware := v } })
+  else if code = ngOptionCodeOS then (.ok (), { s with curSec := { s.curSec with os := v } })
+  else if code = ngOptionCodeUserApplication then (.ok (), { s with curSec := { s.curSec with app := v } })
+  else (.ok (), s)
 
 /-- interface description options (with fix pcapng-1: length checks) -/
-def idbHandle (code : Nat) (v : Bytes) : M Unit :=
-  if code = ngOptionCodeInterfaceName then modS fun s => { s with curIf := { s.curIf with name := v } }
-  else if code = ngOptionCodeComment then modS fun s => { s with curIf := { s.curIf with comment := v } }
-  else if code = ngOptionCodeInterfaceDescription then modS fun s => { s with curIf := { s.curIf with descr := v } }
+def idbHandle (code : Nat) (v : Bytes) : Act Unit := fun s =>
+  if code = ngOptionCodeInterfaceName then (.ok (), { s with curIf := { s.curIf with name := v } })
+  else if code = ngOptionCodeComment then (.ok (), { s with curIf := { s.curIf with comment := v } })
+  else if code = ngOptionCodeInterfaceDescription then (.ok (), { s with curIf := { s.curIf with descr := v } })
   else if code = ngOptionCodeInterfaceFilter then
-    if v.length < 1 then failM .err
-    else modS fun s => { s with curIf := { s.curIf with filter := v.drop 1 } }
-  else if code = ngOptionCodeInterfaceOS then modS fun s => { s with curIf := { s.curIf with os := v } }
+    if v.length < 1 then (.error .err, s)
+    else (.ok (), { s with curIf := { s.curIf with filter := v.drop 1 } })
+  else if code = ngOptionCodeInterfaceOS then (.ok (), { s with curIf := { s.curIf with os := v } })
   else if code = ngOptionCodeInterfaceTimestampOffset then
-    if v.length < 8 then failM .err
-    else modS fun s => { s with curIf := { s.curIf with tsoff := getU s.be (v.take 8) } }
+    if v.length < 8 then (.error .err, s)
+    else (.ok (), { s with curIf := { s.curIf with tsoff := getU s.be (v.take 8) } })
   else if code = ngOptionCodeInterfaceTimestampResolution then
-    if v.length < 1 then failM .err
-    else modS fun s => { s with curIf := { s.curIf with tsres := leNat (v.take 1) } }
-  else pure ()
+    if v.length < 1 then (.error .err, s)
+    else (.ok (), { s with curIf := { s.curIf with tsres := leNat (v.take 1) } })
+  else (.ok (), s)
 
 /-- `intf.secondMask *= 10` exponent times, in uint64 -/
 def pow10u64 : Nat → Nat
@@ -379,346 +121,382 @@ def resExp (r : Nat) : Nat := (resExponent (Int.ofNat r)).toNat
 def finishIface (i : Iface) (tsres secondMask scaleUp scaleDown : Nat) : Iface :=
   { i with tsres := tsres, secondMask := secondMask, scaleUp := scaleUp, scaleDown := scaleDown }
 
-/-- readInterfaceDescriptor (with fix pcapng-3: resolutions that do not fit into 64 bit are an error) -/
-def readIDB (fuel : Nat) : M Unit := do
-  let h ← rd 8
-  decBlk 8
-  modS fun s => { s with curIf := { linkType := getU s.be (h.take 2), snaplen := getU s.be (h.drop 4) } }
-  optLoop idbHandle fuel
-  discardBlock
-  let s ← getS
+/-- readInterfaceDescriptor after the options: default resolution, secondMask / scaleUp / scaleDown, append
+    (with fix pcapng-3: resolutions that do not fit into 64 bit are an error) -/
+def idbFinishStep : Act Unit := fun s =>
   let intf := s.curIf
   let tsres := if intf.tsres = 0 then 6 else intf.tsres
   let e := resExp tsres
-  if (resBinary tsres && decide (e > 63)) || (!resBinary tsres && decide (e > 19)) then failM .err
+  if (resBinary tsres && decide (e > 63)) || (!resBinary tsres && decide (e > 19)) then (.error .err, s)
   else
     let secondMask := if resBinary tsres then (2 ^ e) % two64 else pow10u64 e
     if secondMask < 1000000000 then
-      if secondMask = 0 then failM (.panic .divZero)
-      else modS fun s => { s with ifaces := s.ifaces ++ [finishIface intf tsres secondMask (1000000000 / secondMask) 1] }
+      if secondMask = 0 then (.error (.panic .divZero), s)
+      else (.ok (), { s with ifaces := s.ifaces ++ [finishIface intf tsres secondMask (1000000000 / secondMask) 1] })
     else
-      modS fun s => { s with ifaces := s.ifaces ++ [finishIface intf tsres secondMask 1 (secondMask / 1000000000)] }
+      (.ok (), { s with ifaces := s.ifaces ++ [finishIface intf tsres secondMask 1 (secondMask / 1000000000)] })
+
+/-- readInterfaceDescriptor -/
+def readIDB : Prog Unit := do
+  let h ← rd 8
+  modS fun s => { s with blkLen := sub32 s.blkLen 8,
+                         curIf := { linkType := getU s.be (h.take 2), snaplen := getU s.be (h.drop 4) } }
+  optLoop idbHandle
+  discardBlock
+  Prog.act idbFinishStep
 
 /-- convertTime followed by time.Unix(...).UTC() -/
-def convertTime (ifaceID : Nat) (ts : Nat) : M Time := fun s =>
+def convertTimeF (s : S) (ifaceID : Nat) (ts : Nat) : Except Err Time :=
   match s.ifaces[ifaceID]? with
-  | none => .fail (.panic .index) s
+  | none => .error (.panic .index)
   | some i =>
-    if i.secondMask = 0 ∨ i.scaleDown = 0 then .fail (.panic .divZero) s
+    if i.secondMask = 0 ∨ i.scaleDown = 0 then .error (.panic .divZero)
     else
       let sec := toI64 ((ts / i.secondMask + i.tsoff) % two64)
       let nsec := toI64 (((ts % i.secondMask) * i.scaleUp % two64) / i.scaleDown)
-      .ok (timeUnix sec nsec) s
+      .ok (timeUnix sec nsec)
 
-def setStats (f : Stats → Stats) : M Unit := modS fun s =>
+/-- `stats.X = …` through the pointer `stats := &r.ifaces[ifaceID].Statistics` -/
+def setStatsF (s : S) (f : Stats → Stats) : S :=
   { s with ifaces := s.ifaces.modify s.isbId (fun i => { i with stats := f i.stats }) }
 
 /-- 64 bit timestamp from two 32 bit words (high word first), each in file byte order -/
 def ts64 (be : Bool) (v : Bytes) : Nat := getU be (v.take 4) * two32 + getU be ((v.drop 4).take 4)
 
 /-- interface statistics options (with fix pcapng-1) -/
-def isbHandle (code : Nat) (v : Bytes) : M Unit :=
-  if code = ngOptionCodeComment then setStats fun st => { st with comment := v }
+def isbHandle (code : Nat) (v : Bytes) : Act Unit := fun s =>
+  if code = ngOptionCodeComment then (.ok (), setStatsF s fun st => { st with comment := v })
   else if code = ngOptionCodeInterfaceStatisticsStartTime then
-    if v.length < 8 then failM .err
-    else do
-      let s ← getS
-      let t ← convertTime s.isbId (ts64 s.be v)
-      setStats fun st => { st with startTime := t }
+    if v.length < 8 then (.error .err, s)
+    else match convertTimeF s s.isbId (ts64 s.be v) with
+      | .ok t => (.ok (), setStatsF s fun st => { st with startTime := t })
+      | .error e => (.error e, s)
   else if code = ngOptionCodeInterfaceStatisticsEndTime then
-    if v.length < 8 then failM .err
-    else do
-      let s ← getS
-      let t ← convertTime s.isbId (ts64 s.be v)
-      setStats fun st => { st with endTime := t }
+    if v.length < 8 then (.error .err, s)
+    else match convertTimeF s s.isbId (ts64 s.be v) with
+      | .ok t => (.ok (), setStatsF s fun st => { st with endTime := t })
+      | .error e => (.error e, s)
   else if code = ngOptionCodeInterfaceStatisticsInterfaceReceived then
-    if v.length < 8 then failM .err
-    else do
-      let s ← getS
-      setStats fun st => { st with received := getU s.be (v.take 8) }
+    if v.length < 8 then (.error .err, s)
+    else (.ok (), setStatsF s fun st => { st with received := getU s.be (v.take 8) })
   else if code = ngOptionCodeInterfaceStatisticsInterfaceDropped then
-    if v.length < 8 then failM .err
-    else do
-      let s ← getS
-      setStats fun st => { st with dropped := getU s.be (v.take 8) }
-  else pure ()
+    if v.length < 8 then (.error .err, s)
+    else (.ok (), setStatsF s fun st => { st with dropped := getU s.be (v.take 8) })
+  else (.ok (), s)
 
-/-- readInterfaceStatistics (callback not modelled) -/
-def readISB (fuel : Nat) : M Unit := do
-  let h ← rd 12
-  decBlk 12
-  let s ← getS
+/-- readInterfaceStatistics after the 12 byte header: interface check, reset, LastUpdate -/
+def isbHeadStep (h : Bytes) : Act Unit := fun s =>
+  let s := { s with blkLen := sub32 s.blkLen 12 }
   let ifaceID := getU s.be (h.take 4)
   let ts := ts64 s.be (h.drop 4)
-  if ifaceID ≥ s.ifaces.length then failM .err
+  if ifaceID ≥ s.ifaces.length then (.error .err, s)
   else
-    modS fun s => { s with isbId := ifaceID }
-    setStats fun _ => {}
-    let t ← convertTime ifaceID ts
-    setStats fun st => { st with lastUpdate := t }
-    optLoop isbHandle fuel
-    discardBlock
+    let s := setStatsF { s with isbId := ifaceID } fun _ => Stats.empty
+    match convertTimeF s ifaceID ts with
+    | .ok t => (.ok (), setStatsF s fun st => { st with lastUpdate := t })
+    | .error e => (.error e, s)
 
-/-- readDecryptionSecretsBlock (with fix pcapng-6) -/
-def readDSB : M Unit := do
-  let h ← rdW 8
-  decBlk 8
-  let s ← getS
+/-- readInterfaceStatistics (callback not modelled) -/
+def readISB : Prog Unit := do
+  let h ← rd 12
+  Prog.act (isbHeadStep h)
+  optLoop isbHandle
+  discardBlock
+
+/-- readDecryptionSecretsBlock after the 8 byte header (with fix pcapng-6: length check) -/
+def dsbHeadStep (h : Bytes) : Act Nat := fun s =>
+  let s := { s with blkLen := sub32 s.blkLen 8 }
   let secretsLength := getU s.be (h.drop 4)
-  if secretsLength > s.blkLen then failM .err
-  else
-    let s ← getS
-    let avail := s.inp.take secretsLength
-    emit (.dsb secretsLength avail)
-    let _ ← rdW secretsLength
-    decBlk secretsLength
-    modS fun s => { s with nSecrets := s.nSecrets + 1 }
+  if secretsLength > s.blkLen then (.error .err, s) else (.ok secretsLength, s)
+
+/-- readDecryptionSecretsBlock -/
+def readDSB : Prog Unit := do
+  let h ← rdW 8
+  let n ← Prog.act (dsbHeadStep h)
+  let _ ← Prog.io (.rdDsb n)
+  modS fun s => { s with blkLen := sub32 s.blkLen n, nSecrets := s.nSecrets + 1 }
 
 /-- bytes.Trim(b, "\x00") -/
 def trimZeros (b : Bytes) : Bytes :=
   ((b.dropWhile (· = 0)).reverse.dropWhile (· = 0)).reverse
 
 /-- the `for length > 0 { ReadBytes(0) … }` loop of readNameResolutionBlock -/
-def nrbNames (fuel : Nat) : M Unit :=
-  iter (do
+def nrbNames : Prog Unit :=
+  Prog.iter (do
     let s ← getS
     if s.nrLen > 0 then
-      let b ← readBytes0
+      let b ← Prog.io .line0
       modS fun s => { s with nrLen := s.nrLen - Int.ofNat b.length, nrNames := s.nrNames ++ [trimZeros b] }
       pure .again
-    else pure (.done ())) fuel
+    else pure (.done ()))
+
+/-- what a name record header asks for -/
+inductive NrKind where
+  | addr (n padding : Nat)      -- read an address of n bytes, then names, then `padding`
+  | skip (n : Nat)              -- unknown record: discard n bytes
+  | endRec
+
+/-- readNameResolutionBlock: the record header -/
+def nrbHeadStep (h : Bytes) : Act NrKind := fun s =>
+  let s := { s with blkLen := sub32 s.blkLen 4 }
+  let rtype := getU s.be (h.take 2)
+  let rlen := getU s.be (h.drop 2)
+  let length := (minInt (Int.ofNat rlen) (Int.ofNat s.blkLen)).toNat
+  let padding := (paddingBytes32b (Int.ofNat length)).toNat
+  let addr : Option (Nat × Nat) :=          -- (bytes read, Addr.Len())
+    if rtype = ngNameRecordIPv4 then some (4, 4)
+    else if rtype = ngNameRecordIPv6 then some (16, 16)
+    else if rtype = ngNameRecordEUI48 then some (6, 24)   -- newHWAddress(r.buf[:]) clones all 24 bytes
+    else if rtype = ngNameRecordEUI64 then some (8, 24)
+    else none
+  match addr with
+  | some (n, alen) =>
+    -- the assignments that follow the address read do not depend on it
+    (.ok (.addr n padding), { s with blkLen := sub32 s.blkLen length,
+                                     nrLen := Int.ofNat length - Int.ofNat alen, nrNames := [], nrAddr := alen })
+  | none =>
+    if rtype = ngNameRecordEnd then (.ok .endRec, s) else (.ok (.skip (length + padding)), s)
 
 /-- readNameResolutionBlock -/
-def readNRB (fuel : Nat) : M Unit := do
-  iter (do
+def readNRB : Prog Unit := do
+  Prog.iter (do
     let s ← getS
     if s.blkLen > 0 then
       let h ← rdW 4
-      decBlk 4
-      let s ← getS
-      let rtype := getU s.be (h.take 2)
-      let rlen := getU s.be (h.drop 2)
-      let length := (minInt (Int.ofNat rlen) (Int.ofNat s.blkLen)).toNat
-      let padding := (paddingBytes32b (Int.ofNat length)).toNat
-      let addr : Option (Nat × Nat) :=          -- (bytes read, Addr.Len())
-        if rtype = ngNameRecordIPv4 then some (4, 4)
-        else if rtype = ngNameRecordIPv6 then some (16, 16)
-        else if rtype = ngNameRecordEUI48 then some (6, 24)   -- newHWAddress(r.buf[:]) clones all 24 bytes
-        else if rtype = ngNameRecordEUI64 then some (8, 24)
-        else none
-      match addr with
-      | some (n, alen) =>
+      let k ← Prog.act (nrbHeadStep h)
+      match k with
+      | .addr n padding =>
         let _ ← rdW n
-        decBlk length
-        modS fun s => { s with nrLen := Int.ofNat length - Int.ofNat alen, nrNames := [], nrAddr := alen }
-        nrbNames fuel
+        nrbNames
         modS fun s => { s with names := s.names ++ [{ addrLen := s.nrAddr, names := s.nrNames }] }
         discard padding
         pure .again
-      | none =>
-        if rtype = ngNameRecordEnd then pure (.done ())
-        else
-          discardW (length + padding)
-          pure .again
-    else pure (.done ())) fuel
+      | .skip n =>
+        discardW n
+        pure .again
+      | .endRec => pure (.done ())
+    else pure (.done ()))
   discardBlock
 
 /-- skipSection -/
-def skipSection (fuel : Nat) : M Unit :=
-  iter (do
+def skipSection : Prog Unit :=
+  Prog.iter (do
     readBlock
     let s ← getS
     if s.blkTyp = ngBlockTypeSectionHeader then pure (.done ())
     else
       discardBlock
-      pure .again) fuel
+      pure .again)
+
+/-- firstInterface, after readInterfaceDescriptor: link type of the first interface of the section -/
+def firstIfaceStep : Act (Step Unit) := fun s =>
+  match s.ifaces[0]? with
+  | none => (.error (.panic .index), s)
+  | some i0 =>
+    if !s.firstFound then (.ok (.done ()), { s with linkType := i0.linkType, firstFound := true })
+    else if s.linkType ≠ i0.linkType then
+      if s.cfg.errMismatch then (.error .err, s) else (.ok .again, s)
+    else (.ok (.done ()), s)
 
 /-- firstInterface -/
-def firstInterface (fuel : Nat) : M Unit :=
-  iter (do
+def firstInterface : Prog Unit :=
+  Prog.iter (do
     readBlock
     let s ← getS
     let t := s.blkTyp
     if t = ngBlockTypeInterfaceDescriptor then
-      readIDB fuel
-      let s ← getS
-      match s.ifaces[0]? with
-      | none => failM (.panic .index)
-      | some i0 =>
-        if !s.firstFound then
-          modS fun s => { s with linkType := i0.linkType, firstFound := true }
-          pure (.done ())
-        else if s.linkType ≠ i0.linkType then
-          if s.cfg.errMismatch then failM .err else pure .again
-        else pure (.done ())
+      readIDB
+      Prog.act firstIfaceStep
     else if t = ngBlockTypePacket ∨ t = ngBlockTypeEnhancedPacket ∨ t = ngBlockTypeSimplePacket ∨ t = ngBlockTypeInterfaceStatistics then
       failM .err
     else
       if t = ngBlockTypeDecryptionSecrets then readDSB
-      else if t = ngBlockTypeNameResolution then readNRB fuel
+      else if t = ngBlockTypeNameResolution then readNRB
       else pure ()
       discardBlock
-      pure .again) fuel
+      pure .again)
+
+/-- readSectionHeader: version check; `true` = skip this section -/
+def shbVersionStep (h : Bytes) : Act Bool := fun s =>
+  let s := { s with blkLen := sub32 s.blkLen 12 }
+  let vMajor := getU s.be (h.take 2)
+  let vMinor := getU s.be ((h.drop 2).take 2)
+  if vMajor ≠ ngVersionMajor ∨ vMinor ≠ ngVersionMinor then
+    if !s.cfg.skipUnknown then (.error .err, s) else (.ok true, s)
+  else (.ok false, { s with curSec := {} })
 
 /-- readSectionHeader (SectionEndCallback not modelled) -/
-def readSectionHeader (fuel : Nat) : M Unit := do
+def readSectionHeader : Prog Unit := do
   modS fun s => { s with ifaces := [], nSecrets := 0, names := [] }
-  iter (do
+  Prog.iter (do
     let h ← rd 12
-    decBlk 12
-    let s ← getS
-    let vMajor := getU s.be (h.take 2)
-    let vMinor := getU s.be ((h.drop 2).take 2)
-    if vMajor ≠ ngVersionMajor ∨ vMinor ≠ ngVersionMinor then
-      if !s.cfg.skipUnknown then failM .err
-      else
-        discardBlock
-        skipSection fuel
-        pure .again
-    else pure (.done ())) fuel
-  modS fun s => { s with curSec := {} }
-  optLoop shbHandle fuel
+    let skipIt ← Prog.act (shbVersionStep h)
+    if skipIt then
+      discardBlock
+      skipSection
+      pure .again
+    else pure (.done ()))
+  optLoop shbHandle
   discardBlock
   modS fun s => { s with sect := s.curSec }
   let s ← getS
-  if !s.cfg.mixed then firstInterface fuel else pure ()
+  if !s.cfg.mixed then firstInterface else pure ()
 
 /-- EPB flags word: NgEpbFlags.FromUint32 (masks 0x3, 0x1c, 0x3e0, 0xffff0000 as arithmetic) -/
 def flagsOfU32 (v : Nat) : Flags :=
   { dir := v % 4, rcv := v / 4 % 8 * 4, fcs := v / 32 % 32 * 32, lle := v / 65536 % 65536 * 65536 }
 
 /-- enhanced packet options (with fix pcapng-1); always little endian, like the Go code -/
-def pktHandle (code : Nat) (v : Bytes) : M Unit :=
-  if code = ngOptionCodeComment then modS fun s => { s with curOpts := { s.curOpts with comments := s.curOpts.comments ++ [v] } }
+def pktHandle (code : Nat) (v : Bytes) : Act Unit := fun s =>
+  if code = ngOptionCodeComment then (.ok (), { s with curOpts := { s.curOpts with comments := s.curOpts.comments ++ [v] } })
   else if code = ngOptionCodeEpbFlags then
-    if v.length < 4 then failM .err
-    else modS fun s => { s with curOpts := { s.curOpts with flags := some (flagsOfU32 (leNat (v.take 4))) } }
+    if v.length < 4 then (.error .err, s)
+    else (.ok (), { s with curOpts := { s.curOpts with flags := some (flagsOfU32 (leNat (v.take 4))) } })
   else if code = ngOptionCodeEpbHash then
-    if v.length < 1 then failM .err
-    else modS fun s => { s with curOpts := { s.curOpts with hashes := s.curOpts.hashes ++ [(leNat (v.take 1), v.drop 1)] } }
+    if v.length < 1 then (.error .err, s)
+    else (.ok (), { s with curOpts := { s.curOpts with hashes := s.curOpts.hashes ++ [(leNat (v.take 1), v.drop 1)] } })
   else if code = ngOptionCodeEpbDropCount then
-    if v.length < 8 then failM .err
-    else modS fun s => { s with curOpts := { s.curOpts with dropCount := some (leNat (v.take 8)) } }
+    if v.length < 8 then (.error .err, s)
+    else (.ok (), { s with curOpts := { s.curOpts with dropCount := some (leNat (v.take 8)) } })
   else if code = ngOptionCodeEpbPacketID then
-    if v.length < 8 then failM .err
-    else modS fun s => { s with curOpts := { s.curOpts with packetId := some (leNat (v.take 8)) } }
+    if v.length < 8 then (.error .err, s)
+    else (.ok (), { s with curOpts := { s.curOpts with packetId := some (leNat (v.take 8)) } })
   else if code = ngOptionCodeEpbQueue then
-    if v.length < 4 then failM .err
-    else modS fun s => { s with curOpts := { s.curOpts with queue := some (leNat (v.take 4)) } }
+    if v.length < 4 then (.error .err, s)
+    else (.ok (), { s with curOpts := { s.curOpts with queue := some (leNat (v.take 4)) } })
   else if code = ngOptionCodeEpbVerdict then
-    if v.length < 1 then failM .err
-    else modS fun s => { s with curOpts := { s.curOpts with verdicts := s.curOpts.verdicts ++ [(leNat (v.take 1), v.drop 1)] } }
-  else pure ()
+    if v.length < 1 then (.error .err, s)
+    else (.ok (), { s with curOpts := { s.curOpts with verdicts := s.curOpts.verdicts ++ [(leNat (v.take 1), v.drop 1)] } })
+  else (.ok (), s)
 
-/-- readPacketHeader (with fix pcapng-4: capture length checks); returns r.ci, the ancillary link type
-    and the snap length of the packet's interface -/
-def readPacketHeader (fuel : Nat) : M (CapInfo × Nat × Nat) :=
-  iter (do
+/-- readPacketHeader: the 20 byte header of an enhanced / obsolete packet block -/
+def pktHeadStep (epb : Bool) (h : Bytes) : Act Unit := fun s =>
+  let s := { s with blkLen := sub32 s.blkLen 20 }
+  let idx := if epb then getU s.be (h.take 4) else getU s.be (h.take 2)
+  let s := { s with ci := { s.ci with iface := idx } }
+  if idx ≥ s.ifaces.length then (.error .err, s)
+  else
+    match convertTimeF s idx (ts64 s.be (h.drop 4)) with
+    | .error e => (.error e, s)
+    | .ok ts =>
+      (.ok (), { s with ci := { s.ci with ts := ts, caplen := getU s.be ((h.drop 12).take 4),
+                                          len := getU s.be ((h.drop 16).take 4) } })
+
+/-- readPacketHeader: the 4 byte header of a simple packet block -/
+def spbHeadStep (h : Bytes) : Act Unit := fun s =>
+  let s := { s with blkLen := sub32 s.blkLen 4 }
+  let l := getU s.be h
+  let s := { s with ci := { iface := 0, ts := Time.zero, caplen := l, len := l } }
+  match s.ifaces[0]? with
+  | none => (.error .err, s)
+  | some i0 =>
+    if i0.snaplen ≠ 0 ∧ l > i0.snaplen then (.ok (), { s with ci := { s.ci with caplen := i0.snaplen } })
+    else (.ok (), s)
+
+/-- what readPacketHeader does with a packet block once its header is parsed -/
+inductive HdrKind where
+  | take (ci : CapInfo) (linkType snaplen : Nat)   -- return it
+  | skipIt                                          -- other link type: discard the block, look on
+  | skipErr                                         -- other link type: discard the block, ErrNgLinkTypeMismatch
+
+/-- readPacketHeader after FIND_PACKET (with fix pcapng-4: capture length checks) -/
+def hdrFinishStep : Act HdrKind := fun s =>
+  if s.ci.caplen > s.ci.len then (.error .err, s)
+  else if s.ci.caplen > s.blkLen then (.error .err, s)
+  else
+    match s.ifaces[s.ci.iface]? with
+    | none => (.error (.panic .index), s)
+    | some i =>
+      if !s.cfg.mixed then
+        if i.linkType ≠ s.linkType then
+          (.ok (if s.cfg.errMismatch then .skipErr else .skipIt), s)
+        else (.ok (.take s.ci i.linkType i.snaplen), s)
+      else (.ok (.take s.ci i.linkType i.snaplen), s)
+
+/-- readPacketHeader; returns r.ci, the ancillary link type and the snap length of the packet's interface -/
+def readPacketHeader : Prog (CapInfo × Nat × Nat) :=
+  Prog.iter (do
     readBlock
     let s ← getS
     let t := s.blkTyp
     let found : Bool ←
       if t = ngBlockTypeEnhancedPacket ∨ t = ngBlockTypePacket then do
         let h ← rd 20
-        decBlk 20
-        let s ← getS
-        let idx := if t = ngBlockTypeEnhancedPacket then getU s.be (h.take 4) else getU s.be (h.take 2)
-        modS fun s => { s with ci := { s.ci with iface := idx } }
-        if idx ≥ s.ifaces.length then failM .err
-        else
-          let ts ← convertTime idx (ts64 s.be (h.drop 4))
-          modS fun s => { s with ci := { s.ci with ts := ts, caplen := getU s.be ((h.drop 12).take 4),
-                                                   len := getU s.be ((h.drop 16).take 4) } }
-          pure true
+        Prog.act (pktHeadStep (t = ngBlockTypeEnhancedPacket) h)
+        pure true
       else if t = ngBlockTypeSimplePacket then do
         let h ← rd 4
-        decBlk 4
-        let s ← getS
-        let l := getU s.be h
-        modS fun s => { s with ci := { iface := 0, ts := Time.zero, caplen := l, len := l } }
-        match s.ifaces[0]? with
-        | none => failM .err
-        | some i0 =>
-          if i0.snaplen ≠ 0 ∧ l > i0.snaplen then
-            modS fun s => { s with ci := { s.ci with caplen := i0.snaplen } }
-          else pure ()
-          pure true
-      else if t = ngBlockTypeInterfaceDescriptor then do readIDB fuel; pure false
-      else if t = ngBlockTypeInterfaceStatistics then do readISB fuel; pure false
-      else if t = ngBlockTypeSectionHeader then do readSectionHeader fuel; pure false
-      else if t = ngBlockTypeNameResolution then do readNRB fuel; pure false
+        Prog.act (spbHeadStep h)
+        pure true
+      else if t = ngBlockTypeInterfaceDescriptor then do readIDB; pure false
+      else if t = ngBlockTypeInterfaceStatistics then do readISB; pure false
+      else if t = ngBlockTypeSectionHeader then do readSectionHeader; pure false
+      else if t = ngBlockTypeNameResolution then do readNRB; pure false
       else do discardBlock; pure false
     if !found then pure .again
     else
-      let s ← getS
-      if s.ci.caplen > s.ci.len then failM .err
-      else if s.ci.caplen > s.blkLen then failM .err
-      else
-        match s.ifaces[s.ci.iface]? with
-        | none => failM (.panic .index)
-        | some i =>
-          if !s.cfg.mixed then
-            if i.linkType ≠ s.linkType then
-              discardBlock
-              if s.cfg.errMismatch then failM .err else pure .again
-            else pure (.done (s.ci, i.linkType, i.snaplen))
-          else pure (.done (s.ci, i.linkType, i.snaplen))) fuel
+      let k ← Prog.act hdrFinishStep
+      match k with
+      | .take ci lt snap => pure (.done (ci, lt, snap))
+      | .skipIt => do discardBlock; pure .again
+      | .skipErr => do discardBlock; failM .err)
 
 /-- ReadPacketDataWithOptions / ZeroCopyReadPacketDataWithOptions: the two differ only in where the
     data bytes are stored (see PcapNgMem.lean), which the `data` event describes. -/
-def readPacketF (fuel : Nat) : M Pkt := do
-  let (ci, lt, snap) ← readPacketHeader fuel
-  let s ← getS
-  emit (.data ci.caplen (s.inp.take ci.caplen) snap)
-  let data ← rd ci.caplen
-  decBlk ci.caplen
+def readPacketP : Prog Pkt := do
+  let (ci, lt, snap) ← readPacketHeader
+  let data ← Prog.io (.rdData ci.caplen snap)
+  modS fun s => { s with blkLen := sub32 s.blkLen ci.caplen }
   let padding := (4 - ci.caplen % 4) % 4
   if padding > 0 then discard padding else pure ()
   modS fun s => { s with curOpts := {} }
   let s ← getS
-  if s.blkTyp = ngBlockTypeEnhancedPacket then optLoop pktHandle fuel else pure ()
+  if s.blkTyp = ngBlockTypeEnhancedPacket then optLoop pktHandle else pure ()
   discardBlock
   let s ← getS
   pure { ci := ci, ancil := if s.cfg.mixed then some lt else none, data := data, opts := s.curOpts }
 
-/-- NewNgReader (Peek(2) for the gzip magic, first block must be a section header) -/
-def openF (fuel : Nat) : M Unit := do
+/-- NewNgReader after the Peek(2): the first block must be a section header -/
+def openP : Prog Unit := do
+  readBlock
   let s ← getS
-  match s.inp with
-  | [] => failM .eof
-  | [_] => fun s => .fail .ueof { s with inp := [] }
+  if s.blkTyp ≠ ngBlockTypeSectionHeader then failM .err
+  else readSectionHeader
+
+/-! ## Entry points (fuel = bytes left + 1; it always suffices: Gp/Lemmas/PcapNgSafe.lean) -/
+
+/-- a reader between two calls -/
+structure Rd where
+  s : S
+  w : Strm
+  deriving Inhabited
+
+/-- NewNgReader(bytes, cfg): Peek(2) for the gzip magic, then the first section header -/
+def openReader (cfg : Cfg) (inp : Bytes) : Out Unit :=
+  match inp with
+  | [] => .fail .eof { cfg := cfg } { inp := [] }
+  | [_] => .fail .ueof { cfg := cfg } { inp := [] }
   | a :: b :: _ =>
-    if a.toNat = magicGzip1 ∧ b.toNat = magicGzip2 then failM .gzip
-    else
-      readBlock
-      let s ← getS
-      if s.blkTyp ≠ ngBlockTypeSectionHeader then failM .err
-      else readSectionHeader fuel
-
-/-! ## Entry points (fuel = bytes left + 1; see Gp/Lemmas/PcapNgSafe.lean: it always suffices) -/
-
-def initSt (cfg : Cfg) (inp : Bytes) : St := { inp := inp, cfg := cfg }
-
-/-- NewNgReader(bytes, cfg) -/
-def openReader (cfg : Cfg) (inp : Bytes) : Out Unit := openF (inp.length + 1) (initSt cfg inp)
+    if a.toNat = magicGzip1 ∧ b.toNat = magicGzip2 then .fail .gzip { cfg := cfg } { inp := inp }
+    else run (inp.length + 1) openP { cfg := cfg } { inp := inp }
 
 /-- one ReadPacketDataWithOptions / ZeroCopyReadPacketDataWithOptions call; the event log is per call -/
-def readPacket (s : St) : Out Pkt := readPacketF (s.inp.length + 1) { s with ev := [] }
+def readPacket (r : Rd) : Out Pkt := run (r.w.inp.length + 1) readPacketP r.s { r.w with ev := [] }
 
-/-- call readPacket until it fails; returns the packets, the final error and the final state -/
-def readAllF : Nat → St → List Pkt × Err × St
-  | 0, s => ([], .hang, s)
-  | f + 1, s =>
-    match readPacket s with
-    | .ok p s' => let (ps, e, sf) := readAllF f s'; (p :: ps, e, sf)
-    | .fail e s' => ([], e, s')
+/-- call readPacket until it fails; returns the packets, the final error and the final reader -/
+def readAllF : Nat → Rd → List Pkt × Err × Rd
+  | 0, r => ([], .hang, r)
+  | f + 1, r =>
+    match readPacket r with
+    | .ok p s w => let (ps, e, rf) := readAllF f ⟨s, w⟩; (p :: ps, e, rf)
+    | .fail e s w => ([], e, ⟨s, w⟩)
 
-def readAll (s : St) : List Pkt × Err × St := readAllF (s.inp.length + 1) s
+def readAll (r : Rd) : List Pkt × Err × Rd := readAllF (r.w.inp.length + 1) r
 
 /-- open + read everything -/
-def readFile (cfg : Cfg) (inp : Bytes) : List Pkt × Err × St :=
+def readFile (cfg : Cfg) (inp : Bytes) : List Pkt × Err × Rd :=
   match openReader cfg inp with
-  | .ok _ s => readAll s
-  | .fail e s => ([], e, s)
+  | .ok _ s w => readAll ⟨s, w⟩
+  | .fail e s w => ([], e, ⟨s, w⟩)
 
 end Gp.PcapNg
